@@ -134,7 +134,9 @@ package eni
 //@ guard call Set.Delete#1 in factoryDisposeWorker: c07u4ok && arg0 == c07u4
 //@ guard call Set.Delete#2 in factoryDisposeWorker: c07u6ok && arg0 == c07u6
 
-//@ # ---- factoryAllocWorker: what the cloud handed over together with an error is kept for hand-back, never dropped ----
+//@ for C01 C07
+//@ # ---- factoryAllocWorker: what the cloud handed over together with an error is kept for hand-back, never dropped — and
+//@ # ---- never entered as a usable address (an address returned with an error is not confirmed to be on the interface) ----
 //@ ghost c07ret4 []netip.Addr
 //@ ghost c07q4 bool = false
 //@ ghost c07ret6 []netip.Addr
